@@ -30,7 +30,7 @@ const maxDepth = 4
 var alphabet = []rune{
 	'a', 'b', 'c', 'x', 'y', 'Z', 'K', '0', '1', '7', 'a', 'b', 'e', 'n', 't',
 	' ', ' ', '\t', '"', '"', '\\', '\\', '(', ')', ',', ',',
-	'é', '日', '🜂', 'ß', '\n', '\r', '-', '.', '_', ':', '#', '=', '>',
+	'é', '日', '🜂', 'ß', '\n', '\r', '-', '.', '_', ':', '#', '=', '>', '\v', '\u00a0', '\x00', '\'',
 }
 
 var plainAlphabet = []rune{'a', 'b', 'c', 'x', 'y', 'Z', 'K', '0', '1', '7', 'e', 'n', 't', 'é', '日', '-', '.', '_'}
@@ -39,16 +39,17 @@ var plainAlphabet = []rune{'a', 'b', 'c', 'x', 'y', 'Z', 'K', '0', '1', '7', 'e'
 var wholeStrings = []string{
 	"", " ", "\"", "\\", "\\\\", "\"\"", "\\\"", "(", ")", "()", "and", "or", "not", "where", "limit",
 	"a b", "a\\b", "a\"b", "\"a\"", "a\\", "\\a", "日", "é", "x🜂", "true", "12", "a,b", ",", "\t", "a\nb", "it's", "\\ ", " \\",
+	"\xff", "a\xc3", "\xe6\x97", "x\\\xff", // invalid UTF-8 is still a Go string
 }
 
 func genStr(t *rapid.T, label string, maxLen int) string {
-	switch r := rapid.IntRange(0, 99).Draw(t, label+"_kind"); {
+	switch r := uni(t, label+"_kind", 100); {
 	case r < 20:
-		return rapid.SampledFrom(wholeStrings).Draw(t, label+"_whole")
+		return pick(t, label+"_whole", wholeStrings)
 	case r < 45:
-		return string(rapid.SliceOfN(rapid.SampledFrom(plainAlphabet), 1, maxLen).Draw(t, label+"_plain"))
+		return string(rapid.SliceOfN(from(plainAlphabet), 1, maxLen).Draw(t, label+"_plain"))
 	default:
-		return string(rapid.SliceOfN(rapid.SampledFrom(alphabet), 0, maxLen).Draw(t, label))
+		return string(rapid.SliceOfN(from(alphabet), 0, maxLen).Draw(t, label))
 	}
 }
 
@@ -85,19 +86,19 @@ func isReservedKey(k string) bool {
 var freeKey = rapid.StringMatching(`[A-Za-z][A-Za-z0-9]{0,6}`)
 
 func genKey(t *rapid.T, ty opType, label string, grammar bool) (key string, class string) {
-	switch r := rapid.IntRange(0, 99).Draw(t, label+"_kind"); {
+	switch r := uni(t, label+"_kind", 100); {
 	case r < 50:
-		key, class = rapid.SampledFrom(schemaKeys[ty]).Draw(t, label+"_schema"), "key_schema"
+		key, class = pick(t, label+"_schema", schemaKeys[ty]), "key_schema"
 	case r < 65:
-		key, class = rapid.SampledFrom(advisedKeys).Draw(t, label+"_advised"), "key_advised"
+		key, class = pick(t, label+"_advised", advisedKeys), "key_advised"
 	case r < 78:
 		key, class = freeKey.Draw(t, label+"_free"), "key_free"
 	case r < 86:
-		key, class = rapid.SampledFrom(nonASCIIKeys).Draw(t, label+"_nonascii"), "key_nonascii"
+		key, class = pick(t, label+"_nonascii", nonASCIIKeys), "key_nonascii"
 	case r < 96:
 		key, class = genStr(t, label+"_special", 4), "key_special"
 	default:
-		key, class = rapid.SampledFrom(reservedKeys).Draw(t, label+"_reserved"), "key_reserved"
+		key, class = pick(t, label+"_reserved", reservedKeys), "key_reserved"
 	}
 	if isReservedKey(key) {
 		if grammar {
@@ -121,17 +122,17 @@ var intBoundaries = []int64{
 }
 
 func genInt(t *rapid.T) int64 {
-	switch rapid.IntRange(0, 4).Draw(t, "int_kind") {
+	switch uni(t, "int_kind", 5) {
 	case 0:
 		return int64(rapid.IntRange(-3, 3).Draw(t, "int_small"))
 	case 1:
 		return rapid.Int64().Draw(t, "int_uniform")
 	case 2:
-		return rapid.SampledFrom(intBoundaries).Draw(t, "int_boundary")
+		return pick(t, "int_boundary", intBoundaries)
 	case 3:
 		return int64(rapid.IntRange(-1000, 1000).Draw(t, "int_mid"))
 	default:
-		return int64(rapid.IntRange(0, 65535).Draw(t, "int_u16"))
+		return int64(uni(t, "int_u16", 65536))
 	}
 }
 
@@ -141,13 +142,13 @@ var floatSpecials = []float64{
 }
 
 func genFloat(t *rapid.T) float64 {
-	switch rapid.IntRange(0, 4).Draw(t, "float_kind") {
+	switch uni(t, "float_kind", 5) {
 	case 0:
 		return float64(rapid.IntRange(-3, 3).Draw(t, "float_small"))
 	case 1:
 		return float64(rapid.IntRange(-10000, 10000).Draw(t, "float_dec")) / 10
 	case 2:
-		return rapid.SampledFrom(floatSpecials).Draw(t, "float_special")
+		return pick(t, "float_special", floatSpecials)
 	case 3:
 		return rapid.Float64().Draw(t, "float_uniform")
 	default:
@@ -166,12 +167,13 @@ func genRegex(t *rapid.T) (src, example string) {
 	n := rapid.IntRange(1, 3).Draw(t, "re_n")
 	var sb, ex strings.Builder
 	for i := 0; i < n; i++ {
-		if rapid.IntRange(0, 3).Draw(t, "re_kind") == 0 {
-			lit := genStr(t, "re_lit", 3)
+		if uni(t, "re_kind", 4) == 0 {
+			// regexp.Compile rejects patterns that are not valid UTF-8
+			lit := strings.ToValidUTF8(genStr(t, "re_lit", 3), "?")
 			sb.WriteString(regexp.QuoteMeta(lit))
 			ex.WriteString(lit)
 		} else {
-			p := rapid.SampledFrom(regexPieces).Draw(t, "re_piece")
+			p := pick(t, "re_piece", regexPieces)
 			sb.WriteString(p[0])
 			ex.WriteString(p[1])
 		}
@@ -186,7 +188,7 @@ func genRegex(t *rapid.T) (src, example string) {
 
 func genList(t *rapid.T, grammar bool) []string {
 	var n int
-	switch r := rapid.IntRange(0, 99).Draw(t, "list_n_kind"); {
+	switch r := uni(t, "list_n_kind", 100); {
 	case r < 3:
 		n = 0
 	case r < 10:
@@ -226,7 +228,7 @@ func genList(t *rapid.T, grammar bool) []string {
 func genLeaf(t *rapid.T, grammar bool) *cond {
 	c := &cond{k: kLeaf}
 	c.op = uint8(rapid.IntRange(0, numOps-1).Draw(t, "op"))
-	c.api = rapid.IntRange(0, 41).Draw(t, "api")
+	c.api = uni(t, "api", 42)
 	ty := typeOfOp(c.op)
 	var class string
 	c.key, class = genKey(t, ty, "key", grammar)
@@ -249,7 +251,7 @@ func genLeaf(t *rapid.T, grammar bool) *cond {
 }
 
 func genCond(t *rapid.T, depth int, grammar bool) *cond {
-	r := rapid.IntRange(0, 99).Draw(t, "node")
+	r := uni(t, "node", 100)
 	leafP := 30 + 17*depth
 	if depth >= maxDepth || r < leafP {
 		return genLeaf(t, grammar)
@@ -262,7 +264,7 @@ func genCond(t *rapid.T, depth int, grammar bool) *cond {
 			c.k = kOr
 		}
 		var n int
-		switch s := rapid.IntRange(0, 99).Draw(t, "group_size_kind"); {
+		switch s := uni(t, "group_size_kind", 100); {
 		case s < 3:
 			n = 0
 		case s < 12:
@@ -291,26 +293,26 @@ var (
 )
 
 func genPrefix(t *rapid.T) (string, string) {
-	switch r := rapid.IntRange(0, 99).Draw(t, "prefix_kind"); {
+	switch r := uni(t, "prefix_kind", 100); {
 	case r < 65:
 		return dbNameGen.Draw(t, "db") + ":" + dbPathGen.Draw(t, "path"), "prefix_plain"
 	case r < 75:
-		return rapid.SampledFrom([]string{"", ":", "db", "db:", ":x", "a:b:c", "query", "where"}).Draw(t, "prefix_odd"), "prefix_odd"
+		return pick(t, "prefix_odd", []string{"", ":", "db", "db:", ":x", "a:b:c", "query", "where"}), "prefix_odd"
 	case r < 87:
-		return rapid.SampledFrom([]string{"db:路径/é", "db:é", "ü:", "数据", "core:🜂", "db:x/日"}).Draw(t, "prefix_nonascii"), "prefix_nonascii"
+		return pick(t, "prefix_nonascii", []string{"db:路径/é", "db:é", "ü:", "数据", "core:🜂", "db:x/日"}), "prefix_nonascii"
 	default:
 		return genStr(t, "prefix_special", 6), "prefix_special"
 	}
 }
 
 func genOrderBy(t *rapid.T) (string, string) {
-	switch r := rapid.IntRange(0, 99).Draw(t, "orderby_kind"); {
+	switch r := uni(t, "orderby_kind", 100); {
 	case r < 50:
 		return "", "orderby_none"
 	case r < 82:
-		return rapid.SampledFrom(advisedKeys).Draw(t, "orderby_advised"), "orderby_plain"
+		return pick(t, "orderby_advised", advisedKeys), "orderby_plain"
 	case r < 90:
-		return rapid.SampledFrom(nonASCIIKeys).Draw(t, "orderby_nonascii"), "orderby_nonascii"
+		return pick(t, "orderby_nonascii", nonASCIIKeys), "orderby_nonascii"
 	default:
 		s := genStr(t, "orderby_special", 5)
 		if s == "" {
@@ -323,13 +325,13 @@ func genOrderBy(t *rapid.T) (string, string) {
 // genCount draws limit/offset within the bound the parser documents for itself
 // (strconv.ParseUint(…, 10, 31)); 0 means "not set".
 func genCount(t *rapid.T, label string) int {
-	switch r := rapid.IntRange(0, 99).Draw(t, label+"_kind"); {
+	switch r := uni(t, label+"_kind", 100); {
 	case r < 50:
 		return 0
 	case r < 75:
 		return rapid.IntRange(1, 100).Draw(t, label+"_small")
 	case r < 85:
-		return rapid.SampledFrom([]int{1, 1<<31 - 1, 1<<31 - 2, 1 << 30, 10, 9, 99, 100}).Draw(t, label+"_boundary")
+		return pick(t, label+"_boundary", []int{1, 1<<31 - 1, 1<<31 - 2, 1 << 30, 10, 9, 99, 100})
 	default:
 		return rapid.IntRange(1, 1<<31-1).Draw(t, label+"_uniform")
 	}
@@ -340,7 +342,7 @@ func genModel(t *rapid.T, grammar bool) *qmodel {
 	var pc, oc string
 	m.prefix, pc = genPrefix(t)
 	stats.Class(pc)
-	if rapid.IntRange(0, 99).Draw(t, "has_where") >= 4 {
+	if uni(t, "has_where", 100) >= 4 {
 		m.where = genCond(t, 0, grammar)
 	}
 	m.orderBy, oc = genOrderBy(t)
